@@ -31,7 +31,7 @@ DC3 = ("from dataclasses import dataclass, field\nfrom collections import namedt
 
 
 def bounds(tier):
-    return {"max_len": 4 if tier == "quick" else 5, "symbols": 3, "shapes": ["list", "tuple", "inlist", "indict", "dict", "kwcall"]}
+    return {"max_len": 4 if tier == "quick" else 5, "symbols": 3, "shapes": ["list", "tuple", "inlist", "indict", "dict", "kwcall"], "element_layouts": ["plain", "parenthesised: all / odd / even positions"]}
 
 
 def _seqs(n):
@@ -63,6 +63,12 @@ def _cases(tier):
             for n in MD:
                 if 9 in o.values() or 9 in n.values():
                     cases.append({"sh": sh, "old": o, "new": n})
+    # the same with hand-written parentheses around element expressions (all / every second element)
+    for par in ("all", "odd", "even"):
+        for sh in ("list", "tuple", "indict"):
+            cases += [{"sh": sh, "old": o, "new": n, "par": par} for o in S3 for n in S3 if o]
+        for sh in ("dict", "kwcall"):
+            cases += [{"sh": sh, "old": o, "new": n, "par": par} for o in _maps() for n in _maps() if o]
     M = _maps()
     for sh in ("dict", "kwcall"):
         for o in M:
@@ -85,8 +91,16 @@ def build(tier, seed):
     return tasks
 
 
-def _seq_text(vals, sh):
-    items = [HAND[v] for v in vals]
+def _par(c, i, t):
+    """Hand-written parentheses around an element expression (they are not part of the element's syntax node)."""
+    m = c.get("par")
+    if m == "all" or (m == "odd" and i % 2 == 1) or (m == "even" and i % 2 == 0):
+        return "(" + t + ")"
+    return t
+
+
+def _seq_text(vals, sh, c=None):
+    items = [_par(c or {}, i, HAND[v]) for i, v in enumerate(vals)]
     if sh == "tuple":
         return "(" + ", ".join(items) + ("," if len(items) == 1 else "") + ")"
     return "[" + ", ".join(items) + "]"
@@ -95,15 +109,15 @@ def _seq_text(vals, sh):
 def _old_text(c):
     sh = c["sh"]
     if sh in ("list", "tuple"):
-        return _seq_text(c["old"], sh)
+        return _seq_text(c["old"], sh, c)
     if sh == "inlist":
-        return "[7, %s, 8]" % _seq_text(c["old"], "list")
+        return "[7, %s, 8]" % _seq_text(c["old"], "list", c)
     if sh == "indict":
-        return "{'k': %s, 'z': 7}" % _seq_text(c["old"], "list")
+        return "{'k': %s, 'z': 7}" % _seq_text(c["old"], "list", c)
     if sh == "dict":
-        return "{" + ", ".join("%r: %s" % (k, HAND[v]) for k, v in c["old"].items()) + "}"
+        return "{" + ", ".join("%r: %s" % (k, _par(c, i, HAND[v])) for i, (k, v) in enumerate(c["old"].items())) + "}"
     if sh in ("kwcall", "ntcall", "dcrcall"):
-        return {"kwcall": "DC3", "ntcall": "NT3", "dcrcall": "DCR"}[sh] + "(" + ", ".join("%s=%s" % (k, HAND[v]) for k, v in c["old"].items()) + ")"
+        return {"kwcall": "DC3", "ntcall": "NT3", "dcrcall": "DCR"}[sh] + "(" + ", ".join("%s=%s" % (k, _par(c, i, HAND[v])) for i, (k, v) in enumerate(c["old"].items())) + ")"
 
 
 def _new_expr(c):
@@ -311,7 +325,7 @@ def run_task(task):
     if "align" in task:
         return _align_probe(task["align"], task["L"])
     r = batch.run_batched(task["cases"], _judge, label=lambda c: "ok:" + c["sh"],
-                          key=lambda c: repr((c["sh"], c["old"], c["new"], c.get("rev"))))
+                          key=lambda c: repr((c["sh"], c["old"], c["new"], c.get("rev"), c.get("par"))))
     # non-trivial only if something had to change and something had to survive
     keep = []
     for c in task["cases"]:
